@@ -92,11 +92,16 @@ def _run(ctx):
         v = rng.uniform(60, 1200) * numpy.exp(numpy.linspace(0.15, -0.25, ntv))
         t = numpy.arange(nt) * 300.0
         vb_q = SimpleNamespace(v_array=v, t_array=t, pressures=numpy.zeros((nt, ntv)))
-        calc = SimpleNamespace(dims=(nt, ntv), modulus_keys=list(adi.keys()), modulus_adiabatic=adi, modulus_isothermal=iso,
-                               elast_data=SimpleNamespace(cellmass=mass), qha_calculator=SimpleNamespace(volume_base=vb_q))
+        # a real Calculator object (so that helper methods a refactoring may introduce exist), built without running
+        # __init__: only the stiffness field and the grids are injected
+        calc = Calculator.__new__(Calculator)
+        calc.__dict__.update(_modulus_keys=list(adi.keys()), modulus_adiabatic=adi, modulus_isothermal=iso,
+                             elast_data=SimpleNamespace(cellmass=mass, volumes=[SimpleNamespace(static_elastic_modulus=adi)]),
+                             qha_calculator=SimpleNamespace(volume_base=vb_q, v_array=v, t_array=t), config={})
+        calc.volume_based_result = CijVolumeBaseInterface(calc)
         try:
-            Calculator._calculate_compliances(calc)
-            vb = CijVolumeBaseInterface(calc)
+            calc._calculate_compliances()
+            vb = calc.volume_base
             judged = judge_vrh(ctx, calc, vb, case_id, tag=f"{system}")
         except Exception as exc:
             if classify_exception(exc) == "code":
